@@ -496,6 +496,118 @@ class FuncInfo:
             seen += 1
         return expr
 
+    # ---- expansion of temporaries (recognition modulo naming of sub-expressions)
+    def _mutation_sites(self):
+        if getattr(self, '_muts', None) is None:
+            from .normal import _mutated_names
+            muts = {}
+            for s in self.cfg.nodes:
+                if s in (ENTRY, EXIT) or isinstance(s, Assume):
+                    continue
+                if isinstance(s, (ast.Assign, ast.AugAssign, ast.AnnAssign, ast.Expr, ast.Delete, ast.Return)):
+                    for _, nm in _mutated_names([s]):
+                        # plain rebinding of a Name is tracked by reaching definitions
+                        muts.setdefault(nm, []).append(s)
+            self._muts = muts
+        return self._muts
+
+    def _mutated_in_place(self, name):
+        """Statements that mutate the object bound to `name` in place
+        (subscript/attribute stores, augmented stores, mutating methods, out=)."""
+        out = []
+        for s in self._mutation_sites().get(name, []):
+            plain = False
+            if isinstance(s, ast.Assign):
+                plain = all(isinstance(t, ast.Name) or (isinstance(t, (ast.Tuple, ast.List)) and all(
+                    isinstance(e, ast.Name) for e in t.elts)) for t in s.targets)
+                if plain:
+                    # still in place if a mutating call sits in the value
+                    plain = not any(isinstance(c, ast.Call) and isinstance(c.func, ast.Attribute) and
+                                    isinstance(c.func.value, ast.Name) and c.func.value.id == name for c in ast.walk(s.value))
+            elif isinstance(s, ast.AnnAssign):
+                plain = isinstance(s.target, ast.Name)
+            if not plain:
+                out.append(s)
+        return out
+
+    def temp_value(self, name_node, strict=True):
+        """If the Name use denotes a temporary - exactly one reaching
+        definition `name = <pure expression>`, the object is never mutated in
+        place, and no operand of the expression is rebound or mutated between
+        the definition and the use - return the defining expression."""
+        from .normal import is_pure
+        if not isinstance(name_node, ast.Name) or not isinstance(name_node.ctx, ast.Load):
+            return None
+        try:
+            defs = self.defs_of_use(name_node)
+        except Exception:
+            return None
+        if len(defs) != 1:
+            return None
+        site = next(iter(defs))
+        if site in ('PARAM', 'UNBOUND') or not isinstance(site, (ast.Assign, ast.AnnAssign)):
+            return None
+        v = self.def_value(site, name_node.id)
+        if v is None or isinstance(v, ast.GeneratorExp) or not is_pure(v):
+            return None
+        if self._mutated_in_place(name_node.id):
+            return None
+        use = self.stmt(name_node)
+        for m in walk_expr(v):
+            if not (isinstance(m, ast.Name) and isinstance(m.ctx, ast.Load)):
+                continue
+            if self.rd.defs_at(site, m.id) != self.rd.defs_at(use, m.id):
+                return None
+            for ms in (self._mutated_in_place(m.id) if strict else []):
+                if ms is use or ms is site:
+                    continue
+                if self.cfg.reachable(site, ms, avoiding=[use]) and self.cfg.reachable(ms, use, avoiding=[site]):
+                    return None
+        return v
+
+    def expand(self, expr, depth=8, stop=(), strict=True):
+        """A copy of `expr` in which every temporary (see temp_value) is
+        replaced by its defining expression, recursively.  Two spellings of a
+        computation that differ only in which sub-expressions were given names
+        expand to the same tree.  Names in `stop` are left alone.  With
+        strict=False an in-place mutation of an operand between definition and
+        use is tolerated (the expansion then denotes the value at definition
+        time; use only to compare two uses of the same temporary)."""
+        import copy as _copy
+
+        def ex(e, d):
+            if isinstance(e, ast.Name):
+                if d > 0 and e.id not in stop and isinstance(e.ctx, ast.Load):
+                    v = self.temp_value(e, strict)
+                    if v is not None:
+                        return ex(v, d - 1)
+                return ast.copy_location(ast.Name(id=e.id, ctx=e.ctx), e)
+            if not isinstance(e, ast.AST):
+                return e
+            if isinstance(e, (ast.expr_context, ast.operator, ast.unaryop, ast.boolop, ast.cmpop)):
+                return e
+            new = type(e)()
+            for f in e._fields:
+                val = getattr(e, f, None)
+                if isinstance(val, list):
+                    setattr(new, f, [ex(x, d) for x in val])
+                elif isinstance(val, ast.AST):
+                    setattr(new, f, ex(val, d))
+                else:
+                    setattr(new, f, val)
+            for a in ('lineno', 'col_offset', 'end_lineno', 'end_col_offset'):
+                if hasattr(e, a):
+                    setattr(new, a, getattr(e, a))
+            return new
+        return ex(expr, depth)
+
+    def xu(self, expr, stop=(), strict=True):
+        """Canonical text of the expanded expression."""
+        from .match import canon
+        from .core import u
+        n = canon(self.expand(expr, stop=stop, strict=strict))
+        return u(n)
+
     def derives_from(self, expr, depth=8):
         """Backward slice: the set of parameter names and free names the
         value of expr may be computed from, and the call names on the way."""
